@@ -57,6 +57,7 @@ impl Group for C10Sim {
         vec![
             // F3: allowlist update with one bad entry
             c("al add g|al set m|al rm m|al add m|al set b"),
+            c("al add gg|al rm m|al add x|al rm xg|al add m|al set m"),
             // F9: refused counterparty revocation (revoking the latest signed commitment)
             c("scp 0 0|cpr 0 g|scp 0 1|cpr 0 g|cpr 1 g"),
             // F4: rejected block removal, then the correct one
@@ -72,6 +73,14 @@ impl Group for C10Sim {
             // refused block requests with a full header window (100 remembered headers)
             c("blkn 100|blk+ b|blk- b|blk- g|blk+ b|blk+ g"),
             c("blkn 97|blk+ b|blk+ g|blk+ b|blk+ g|blk+ b"),
+            // commitments refused by the payment-balance validation (outgoing HTLC unapproved / overpaying), every entry point
+            c("vh 0 g 9|rv 0|scp 0 9|scp 0 10|scp 0 11|scp1 0 10|vh 0 g 10|vh1 0 g 11|vh 0 g 9|rv 0"),
+            c("vh 0 g 10|vh 0 g 0|rv 0|scp 0 11|scp 0 0|cpr 0 g|scp1 0 11|shx 0 b|shx 0 g"),
+            // initial commitment: activation before validation, refused validation, then the regular flow
+            c("world fresh|act|vh 0 b 0|act|vh1 0 g 0|act|act|vh 0 g 1|rv 0"),
+            // the channel map fills up: creation (also of an existing stub) is refused until one is forgotten
+            c("newch 1|newch 2|newch 3|newch 4|newch 2|forget 2|newch 4|newch 5|restart|newch 5|forget 1|newch 5"),
+            c("world perm|newch 2|newch 3|newch 5|newch 4|newch 3|forget 3|newch 4"),
             // a stale counterparty commitment number with changed HTLCs is refused late
             c("scp 0 0|scp 0 1|scp -1 2|scp -1 5|cpr 0 g|scp -2 1"),
             // re-signing the funding transaction: accepted, then refused at the signing step
@@ -82,14 +91,22 @@ impl Group for C10Sim {
         let len = rng.range(6, if tier == Tier::Quick { 14 } else { 30 }) as usize;
         let mut ops = gen_ops(rng, len);
         if rng.chance(1, 4) { ops.insert(0, "world perm".to_string()); }
+        else if rng.chance(1, 6) {
+            let mut pre = vec!["world fresh".to_string()];
+            if rng.chance(1, 3) { pre.push("act".to_string()); }
+            if rng.chance(1, 3) { pre.push("vh 0 b 0".to_string()); }
+            if rng.chance(4, 5) { pre.push(format!("vh{} 0 g 0", if rng.chance(1, 2) { "1" } else { "" })); }
+            if rng.chance(4, 5) { pre.push("act".to_string()); }
+            for (i, o) in pre.into_iter().enumerate() { ops.insert(i, o); }
+        }
         ops
     }
     fn exec_case(&self, ops: &[String]) -> CaseOut {
         let mut co = CaseOut::default();
-        let mut sim = Sim::new_with(ops.first().map(|o| o == "world perm").unwrap_or(false));
+        let mut sim = Sim::new_world(ops.first().map(|o| o.as_str()).unwrap_or(""));
         let (mut seen_ok_change, mut seen_err) = (false, false);
         for (i, op) in ops.iter().enumerate() {
-            if op == "world perm" { co.out.push("ok".into()); continue; }
+            if op.starts_with("world ") { co.out.push("ok".into()); continue; }
             let before_view = view(&sim.node(), false);
             let before_store = sim.store_dump();
             let (out, pending) = exec_op(&mut sim, op);
